@@ -367,6 +367,10 @@ package leveldb
 //@ func (*DB).Close
 //@   props C09 C18
 //@   touches held(db.writeLockC)
+// (an open transaction holds the write lock until it is committed or discarded: Close discards it BEFORE it asks for
+// the lock itself - asking first waits for a lock that only the discard gives back)
+//@   at before stmt db.writeLockC <- struct{}{}
+//@     assert [C09,C18:an-open-transaction-is-discarded-before-close-asks-for-the-write-lock] old(db.tr) == nil || calls("(*Transaction).Discard") == old(calls("(*Transaction).Discard")) + 1
 //@   at before call (*Transaction).Discard#1
 //@     assume [lk-token-with-transaction] (db.tr != nil && !db.tr.closed) ==> (db.tr.db == db && held(db.writeLockC) >= 1)
 //@   ensures [kept-by-closed-db] held(db.writeLockC) >= old(held(db.writeLockC))
